@@ -15,7 +15,8 @@ package agreement
 //     candidate — and inside the honest-majority assumption. The verified `bundle` handed
 //     to the aggregator carries the real verified votes and the real verified
 //     equivocationVotes (unauthenticatedEquivocationVote.verify), in sender order.
-// Bound: every sequence of <= 3 (quick) / 4 (thorough) events (votes and bundles interleaved); states
+// Bound: every sequence of <= 7 (quick) / 9 (thorough) events (votes and bundles interleaved; the
+//   frontier empties at depth 6, i.e. the whole reachable space is covered in both tiers); states
 //   merged by the complete step-tracker + contracts + round/period tracker + reference state.
 // Reference: a bundle event is the delivery of its plain votes, then for every pair its
 //   first and its second vote; the tally, the pruning rule (decided by the reference only)
@@ -411,7 +412,7 @@ func c06ExploreAggregator(r *ve.Run, env *c06Env, steps []step, cov *ve.Coverage
 	if env.v.n != 4 {
 		return true, nil // the five-sender variant is explored at the tracker only
 	}
-	depth := ve.Pick(3, 4)
+	depth := ve.Pick(7, 9)
 	exhaustive := true
 	env.bops = map[step][]c06BundleOp{}
 	for _, s := range steps {
